@@ -53,6 +53,8 @@ FLAVOURS = {
 NOSEED_DEFS = "-DBR_RDRAND=0 -DBR_USE_GETENTROPY=0 -DBR_USE_URANDOM=0 -DBR_USE_WIN32_RAND=0"
 # the /dev/urandom seeder alone, with its file operations routed to the harness (fault injection on the entropy source)
 URANDOM_DEFS = "-DBR_RDRAND=0 -DBR_USE_GETENTROPY=0 -DBR_USE_URANDOM=1 -DBR_USE_WIN32_RAND=0 -Dopen=vf_open -Dread=vf_read -Dclose=vf_close"
+# the getentropy() back end alone (no RDRAND, no /dev/urandom fallback), getentropy routed to the harness
+GETENTROPY_DEFS = "-DBR_RDRAND=0 -DBR_USE_GETENTROPY=1 -DBR_USE_URANDOM=0 -DBR_USE_WIN32_RAND=0 -Dgetentropy=vf_getentropy"
 
 
 def log(msg):
@@ -132,7 +134,7 @@ def _gc(parent, keep):
 def build_lib(flavour):
     """returns directory containing libbearssl.a (+ sysrng_noseed.o)"""
     fl = FLAVOURS[flavour]
-    dig = _digest([], extra=repo_digest() + fl["cc"] + fl["cflags"] + URANDOM_DEFS)
+    dig = _digest([], extra=repo_digest() + fl["cc"] + fl["cflags"] + URANDOM_DEFS + GETENTROPY_DEFS)
     parent = os.path.join(BUILD, "lib", flavour)
     out = os.path.join(parent, dig)
     done = os.path.join(out, ".done")
@@ -166,6 +168,8 @@ def build_lib(flavour):
         _run("%s %s -o %s %s" % (base, NOSEED_DEFS, os.path.join(out, "sysrng_noseed.o"),
                                  os.path.join(REPO, "src", "rand", "sysrng.c")))
         _run("%s %s -o %s %s" % (base, URANDOM_DEFS, os.path.join(out, "sysrng_urandom.o"),
+                                 os.path.join(REPO, "src", "rand", "sysrng.c")))
+        _run("%s %s -o %s %s" % (base, GETENTROPY_DEFS, os.path.join(out, "sysrng_getentropy.o"),
                                  os.path.join(REPO, "src", "rand", "sysrng.c")))
         shutil.rmtree(objdir, ignore_errors=True)
         open(done, "w").close()
@@ -237,7 +241,7 @@ def build_target(tgt):
             _gc(objparent, 2)
         else:
             os.utime(objdir, None)
-        bindig = _digest([], extra=objdig + os.path.basename(libdir) + os.path.basename(common) + str(tgt.get("noseed")) + str(tgt.get("urandom_seeder")))
+        bindig = _digest([], extra=objdig + os.path.basename(libdir) + os.path.basename(common) + str(tgt.get("noseed")) + str(tgt.get("urandom_seeder")) + str(tgt.get("getentropy_seeder")))
         binparent = os.path.join(BUILD, "bin", tgt["name"] + "-" + flavour)
         bindir = os.path.join(binparent, bindig)
         exe = os.path.join(bindir, tgt["name"])
@@ -247,6 +251,8 @@ def build_target(tgt):
         noseed = os.path.join(libdir, "sysrng_noseed.o") if tgt.get("noseed") else ""
         if tgt.get("urandom_seeder"):
             noseed = os.path.join(libdir, "sysrng_urandom.o")
+        if tgt.get("getentropy_seeder"):
+            noseed = os.path.join(libdir, "sysrng_getentropy.o")
         if not os.path.exists(os.path.join(bindir, ".done")):
             shutil.rmtree(bindir, ignore_errors=True)
             os.makedirs(bindir)
